@@ -6,8 +6,13 @@ Correspondence (model `FV/Model/Netlist.lean`, driver `drv_netlist`):
   * the TREE the writer hands to the YAML dumper (`dump_yaml_modules` / `dump_yaml_edges`) against `dumpNetlist`
     (type-aware: `True`, `1`, `1.0` differ);
   * the object obtained by loading that tree again, against the model loading the same tree.
-Text layer (ruamel, tested not proved): `safe_load(n.write_yaml())` equals the writer's tree, and
-`safe_load(write_yaml(doc))` equals `doc`, on every sample.
+Text layer (model `FV/Model/YamlText.lean`, driver mode `T`), on every accepted document:
+  * `n.write_yaml()` against `emitText` of the writer's tree, BYTE FOR BYTE (floats enter the model as `repr(x)`);
+  * `read_yaml(text)` against `parseText text` (types, key order, float bits of `float(literal)`);
+  * small random edits of the text: whenever the model parser accepts one, the real loader must build the same tree
+    (the parser answers `none` outside its subset; duplicate keys: the loader raises, the model tree shows them);
+  * `read_yaml`'s text / file-name test against `isYamlText` (observed through `FileNotFoundError`).
+In addition `safe_load(n.write_yaml())` equals the writer's tree and `safe_load(write_yaml(doc))` equals `doc`.
 Spec on the implementation: `Netlist(n.write_yaml())` compared field by field with `n`; second write identical.
 """
 from __future__ import annotations
@@ -16,7 +21,7 @@ import math
 
 from vcheck import Ctx
 import netlist_common as nc
-from frame.utils.utils import write_yaml
+from frame.utils.utils import write_yaml, read_yaml
 
 LEVEL = "proof"
 DRIVERS = ["drv_netlist"]
@@ -28,7 +33,10 @@ TRUSTED = [
     "the C06 model FV/Model/Stog.lean run on the tagged rectangles, for which StogPerm / StogStable are proved "
     "(FV/Proofs/StogInst.lean); fidelity of that model to geometry.py::create_stog is C06's correspondence plus this run "
     "(roles and order of loaded and re-read rectangles are compared)",
-    "YAML text layer (ruamel.yaml dump/load) is outside the theorem: pinned by load(dump(tree)) == tree on every sample",
+    "YAML text layer: modelled for the writer's subset (FV/Model/YamlText.lean: emitText / parseText, theorem "
+    "text_parse_emit); fidelity to ruamel.yaml checked on every run (bytes of write_yaml, tree of read_yaml, edited "
+    "texts), not proved; outside the subset (flow style, comments, anchors, keys > 122 characters) nothing is claimed",
+    "float <-> decimal text (Python repr / float) is a hypothesis of the text theorems (float(repr(x)) == x)",
     "theorems are over exact ordered fields; IEEE rounding is executed (F stream), never proved",
     "harness (Python) and compiled Lean driver: encoding of trees, canonicalisation, comparison",
 ]
@@ -170,6 +178,9 @@ def _one_case(ctx: Ctx, doc, eps, mode: str, reqs: list, todo: list, stream: str
     tree = nc.impl_tree(n)
     reqs.append(f"{mode} dump {et} {nc.enc_tree(doc, mode)}")
     todo.append(("dump", inp, None, tree, size))
+    text_layer(ctx, inp, n, tree, size, reqs, todo)
+    if ctx.rng.random() < 0.15:
+        file_route(ctx, inp, n, eps, mode, size)
     # re-read of the writer's tree: implementation vs model on the same tree
     st3, n3 = nc.load_impl(tree, eps)
     reqs.append(f"{mode} load {et} {nc.enc_tree(tree, mode)}")
@@ -188,10 +199,191 @@ def _one_case(ctx: Ctx, doc, eps, mode: str, reqs: list, todo: list, stream: str
             ctx.spec_fail(clause, inp, detail, size)
 
 
+def load_text(text: str):
+    """`read_yaml(text)` → (tree, None) or (None, exception class)."""
+    try:
+        return read_yaml(text), None
+    except Exception as e:
+        return None, type(e).__name__
+
+
+def text_layer(ctx: Ctx, inp, n, tree, size, reqs: list, todo: list) -> None:
+    """the emitted text and its reading, against the text model (FV/Model/YamlText.lean)."""
+    text = n.write_yaml()
+    reqs.append("T emit " + nc.enc_text_tree(tree))
+    todo.append(("text-emit", inp, text, None, size))
+    reqs.append("T parse " + nc.enc_str(text))
+    todo.append(("text-parse", inp, load_text(text), text, size))
+    reqs.append("T yamltext " + nc.enc_str(text))
+    todo.append(("yamltext", inp, "1", text, size))
+    ctx.count("text:written")
+    # the COMPOSED reader `loadText` (text model, then float(), then the tree reader) against `Netlist(text)`
+    eps = None if inp["eps"] is None else (inp["eps"][0], inp["eps"][1])
+    st2, n2 = nc.load_impl(text, eps)
+    reqs.append(f"{inp['mode']} loadtext {nc.eps_tokens(eps, inp['mode'])} {nc.enc_str(text)}")
+    todo.append(("reload-text", inp, nc.render_impl(n2, inp["mode"]) if st2 == "ok" else "err:" + n2, nc.wl_scale(n2), size))
+    if ctx.rng.random() < 0.5:
+        for _ in range(3):
+            t2 = nc.mutate_text(ctx.rng, text)
+            for _ in range(ctx.rng.choice([0, 0, 1, 2])):
+                t2 = nc.mutate_text(ctx.rng, t2)
+            if t2 != text:
+                text_case(ctx, t2, reqs, todo)
+
+
+def file_route(ctx: Ctx, inp, n, eps, mode: str, size) -> None:
+    """the same round trip through a FILE: `n.write_yaml(path)` must put exactly the text `n.write_yaml()` returns into the
+    file, and `Netlist(path)` (a string `read_yaml` takes for a file name) must be the same design."""
+    import os
+    import tempfile
+    text = n.write_yaml()
+    with tempfile.TemporaryDirectory(prefix="c04_") as d:
+        path = os.path.join(d, "netlist.yaml")
+        r = n.write_yaml(path)
+        with open(path) as f:
+            content = f.read()
+        if r is not None or content != text:
+            ctx.spec_fail("file-route:file-content==write_yaml()", inp, {"returned": repr(r)[:80], "file": content[:400],
+                                                                         "text": text[:400]}, size)
+            return
+        st2, n2 = nc.load_impl(path, eps)
+        handle_route(ctx, inp, n, path, eps, mode, size)
+    ctx.count("text:file-route")
+    if st2 != "ok":
+        ctx.spec_fail("file-route:reread-rejected", inp, {"error": n2}, size)
+        return
+    d = fieldwise(n, n2, mode == "Q")
+    if d is not None:
+        ctx.spec_fail("file-route:" + d.split("(")[0].split(":")[0], inp, {"difference": d}, size)
+
+
+def handle_route(ctx: Ctx, inp, n, path: str, eps, mode: str, size) -> None:
+    """third documented input of `read_yaml`: an open file handle.  On the tree as found `read_yaml` guards this branch with
+    `isinstance(stream, typing.TextIO)`, which no real stream satisfies (findings/C04_read_yaml_handle.py, repair proposed in
+    fixes/C04_read_yaml_handle.diff): that refusal is recorded as a note; once repaired the route is held to the property."""
+    import traceback
+    from frame.geometry.geometry import Rectangle
+    from frame.netlist.netlist import Netlist
+    nc.set_eps(eps)
+    try:
+        with open(path) as f:
+            n3 = Netlist(f)
+    except AssertionError as e:
+        last = traceback.extract_tb(e.__traceback__)[-1]
+        if last.name == "read_yaml":
+            ctx.count("text:handle-route-refused-by-read_yaml")
+            msg = ("read_yaml refuses every open file handle (typing.TextIO guard): the handle route of the round trip is not "
+                   "checked — findings/C04_read_yaml_handle.py, fixes/C04_read_yaml_handle.diff")
+            if msg not in ctx.notes:
+                ctx.notes.append(msg)
+        else:
+            ctx.spec_fail("file-route:handle-reread-rejected", inp, {"error": "AssertionError", "where": last.name}, size)
+        return
+    except Exception as e:
+        ctx.spec_fail("operation-raised", inp, {"exception": repr(e)[:200], "where": "Netlist(open(path))"}, size)
+        return
+    finally:
+        Rectangle.undefine_epsilon()
+    ctx.count("text:handle-route")
+    d = fieldwise(n, n3, mode == "Q")
+    if d is not None:
+        ctx.spec_fail("file-route:handle:" + d.split("(")[0].split(":")[0], inp, {"difference": d}, size)
+
+
+def text_case(ctx: Ctx, text: str, reqs: list, todo: list) -> None:
+    """an arbitrary text: if the model parser accepts it the loader must build the same tree."""
+    reqs.append("T parse " + nc.enc_str(text))
+    todo.append(("text-edited", {"mode": "T", "text": text}, None, text, len(text)))
+
+
+def generic_tree_cases(ctx: Ctx, reqs: list, todo: list) -> None:
+    """the text theorems range over EVERY tree of the subset `wfRoot`, not only netlist-shaped ones: random nestings of
+    block mappings / sequences with scalars of every class (reserved words, long identifiers that make the emitter move
+    a value to the next line, extreme floats, big integers), written by the real `write_yaml` and read by `read_yaml`."""
+    for _ in range(ctx.n(150, 3000)):
+        tree = nc.gen_text_tree(ctx.rng)
+        inp = {"mode": "T", "kind": "tree", "tree": nc.enc_text_tree(tree)}
+        try:
+            text = write_yaml(tree)
+        except Exception as e:
+            ctx.spec_fail("operation-raised", inp, {"exception": repr(e)[:300], "where": "write_yaml(tree)"}, 1)
+            continue
+        size = len(text)
+        reqs.append("T emit " + nc.enc_text_tree(tree))
+        todo.append(("text-emit", inp, text, None, size))
+        reqs.append("T parse " + nc.enc_str(text))
+        todo.append(("text-parse", inp, load_text(text), text, size))
+        ctx.case("text-tree", inp["tree"], True, sample={"tree": repr(tree)[:200]})
+
+
+def yamltext_cases(ctx: Ctx, reqs: list, todo: list) -> None:
+    """`read_yaml` decides between YAML text and a file name: the file-name branch is observed as FileNotFoundError on a
+    name in a directory that does not exist."""
+    alphabet = ["a", "b", "Z", "_", "1", ":", " ", ": ", "\n", " :", "-", "[", "]", ",", ".", "yaml", "{", "}"]
+    for _ in range(ctx.n(40, 400)):
+        s = "/nonexistent_dir_c04/" + "".join(ctx.rng.choice(alphabet) for _ in range(ctx.rng.randint(0, 8)))
+        try:
+            read_yaml(s)
+            seen = "1"
+        except (FileNotFoundError, NotADirectoryError):
+            seen = "0"
+        except Exception:
+            seen = "1"          # the YAML loader ran (and refused the text)
+        reqs.append("T yamltext " + nc.enc_str(s))
+        todo.append(("yamltext", {"mode": "T", "text": s, "kind": "yamltext"}, seen, s, len(s)))
+        ctx.case("yamltext", s, seen == "0", sample={"string": s, "taken-for": "text" if seen == "1" else "file name"})
+
+
+def compare_text(ctx: Ctx, op, inp, expected, text, size, rep) -> None:
+    if op == "yamltext":
+        if rep != expected:
+            ctx.disagree("read_yaml:text-or-file-name", inp, expected, rep, size)
+        return
+    if op == "text-emit":
+        toks = rep.split()
+        if len(toks) != 3 or toks[0] != "ok":
+            ctx.disagree("text-emit", inp, expected[:1500], rep[:300], size)
+            return
+        mine = bytes.fromhex(toks[2][1:]).decode("utf-8")
+        if toks[1] != "1":
+            ctx.disagree("text-emit:tree-outside-wfRoot", inp, expected[:1500], "wfRoot = false", size)
+        elif mine != expected:
+            first = next((f"{a!r} / {b!r}" for a, b in zip(expected.splitlines(), mine.splitlines()) if a != b), "length")
+            ctx.disagree("text-emit", inp, expected[:1500], mine[:1500] + "  [first difference " + first + "]", size)
+        return
+    if op == "text-parse":
+        loaded, lerr = expected
+        if rep == "none" or lerr is not None:
+            ctx.disagree("text-parse", inp, f"{lerr or repr(nc.plain(loaded))[:1200]}", rep[:1200], size)
+            return
+        mt, _ = nc.dec_text_tree(rep.split()[1:], 0)
+        d = nc.text_tree_diff(mt, nc.plain(loaded))
+        if d:
+            ctx.disagree("text-parse", inp, repr(nc.plain(loaded))[:1200], repr(mt)[:1200] + "  [" + d + "]", size)
+        return
+    # text-edited: only the texts the model accepts are compared
+    if rep == "none":
+        ctx.count("text-edited:outside-subset")
+        return
+    mt, _ = nc.dec_text_tree(rep.split()[1:], 0)
+    loaded, lerr = load_text(text)
+    if lerr == "DuplicateKeyError" and nc.model_tree_has_dup(mt):
+        ctx.count("text-edited:duplicate-key")
+        return
+    ctx.count("text-edited:accepted")
+    ctx.case("text-edited", text, True, sample={"text": text[:200]})
+    d = f"loader raised {lerr}" if lerr is not None else nc.text_tree_diff(mt, nc.plain(loaded))
+    if d:
+        ctx.disagree("text-parse:edited-text", inp, lerr or repr(nc.plain(loaded))[:1200], repr(mt)[:1200] + "  [" + d + "]", size)
+
+
 def compare(ctx: Ctx, todo, replies, mode_of) -> None:
     for (op, inp, impl_line, tree, size), rep in zip(todo, replies):
+        if op in ("text-emit", "text-parse", "text-edited", "yamltext"):
+            compare_text(ctx, op, inp, impl_line, tree, size, rep)
+            continue
         mode = inp["mode"]
-        if op in ("load", "reload-tree"):
+        if op in ("load", "reload-tree", "reload-text"):
             model = rep if not rep.startswith("err:Assert") else "err:Assert"
             ok, exact, why = nc.cmp_lines(impl_line, model, mode, TOL, tree if isinstance(tree, float) else 1.0)
             if not ok:
@@ -231,6 +423,25 @@ def exhaustive_single_module(ctx: Ctx, reqs, todo) -> None:
     ctx.extra["exhaustive_single_module_documents"] = cnt
 
 
+# hand-written texts at the borders of the text model's subset (compared whenever the model accepts them)
+TEXT_CORNERS = [
+    "a: \n  1\n", "a:\n  1\n", "a: \n  b: 1\n", "a:\n  1\n  2\n", "a: \n  1\nb: 2\n", "a: \n 1\n", "a: \n1\n", "- a: \n    1\n",
+    "a:\n  'x'\n", "a:\n  []\n", "a: \n  - 1\n", "a:  \n  1\n", "a: 1\n  2\n",
+    "a: 1\n", "a: 1", "- 1\n- 2\n", "a:\n- 1\n", "a:\n  - 1\n", "a:\n  b: 1\n", "a:\n b: 1\n", "a:\n   b: 1\nc: 2\n",
+    "- - 1\n  - 2\n- - 3\n", "- a: 1\n  b: 2\n- c: 3\n", "- a:\n  - 1\n", "- a:\n    - 1\n", "a: []\nb: {}\n", "- []\n- {}\n",
+    "true: 1\n", "'true': 1\n", "null: 1\n", "1: 2\n", "1.5: 2\n", ".nan: 1\n", "a: null\n", "a: ~\n", "a: Null\n", "a: nul\n",
+    "a: yes\n", "a: y\n", "a: on\n", "a: True\n", "a: FALSE\n", "a: tRUE\n", "a: 012\n", "a: 0\n", "a: -0\n", "a: 00\n", "a: -1\n",
+    "a: +1\n", "a: 1e5\n", "a: 1e+5\n", "a: 1E+5\n", "a: 1.0e+5\n", "a: 1.e+5\n", "a: .5\n", "a: 5.\n", "a: 0.5\n", "a: -0.0\n",
+    "a: .inf\n", "a: -.inf\n", "a: +.inf\n", "a: .Inf\n", "a: .nan\n", "a: -.nan\n", "a: inf\n", "a: nan\n", "a: 1_000\n",
+    "a: 0x10\n", "a: 0o17\n", "a: 1.5.2\n", "a: 1e\n", "a: e5\n", "a: -\n", "a: --1\n", "a: 'x'\n", "a: ''\n", "a: '1'\n",
+    "a: 'x\n", "a: x'\n", "a: 'x''y'\n", "a: \"x\"\n", "a:  1\n", "a : 1\n", "a:1\n", "a: 1 \n", " a: 1\n", "a: 1\n b: 2\n",
+    "a: 1\nb: 2\n", "a: 1\na: 2\n", "a:\n- 1\nb:\n- 2\n", "a:\n- 1\n  - 2\n", "a:\n- - 1\n- 2\n", "-  1\n", "-1\n", "- \n", "-\n",
+    "a:\n", "a:\nb: 1\n", "\n", "", "a: 1\n\n", "\na: 1\n", "# c\na: 1\n", "a: 1 # c\n", "---\na: 1\n", "a: 1\n...\n", "a: [1]\n",
+    "a: {b: 1}\n", "? a\n: 1\n", "a: &x 1\n", "a: !!str 1\n", "a: |\n  x\n", "a: b c\n", "a: b\n  c\n", "\ta: 1\n", "a:\t1\n",
+    "a: 2024-01-01\n", "a: 12:30\n", "a: <<\n", "<<: 1\n", "a: =\n", "_: _\n", "a: 1\r\n", "é: 1\n", "a: é\n",
+]
+
+
 def run(ctx: Ctx) -> None:
     ctx.rule = ("structured random netlist documents, ≤ 12 modules: soft (scalar / bool / ground-dict / multi-region / "
                 "non-ground-only areas, ± centre, ± aspect ratio scalar or pair, ± rectangles in named regions, ± redundant "
@@ -264,6 +475,10 @@ def run(ctx: Ctx) -> None:
         one_case(ctx, doc, eps, mode, reqs, todo, mode)
     if ctx.tier == "thorough" and ctx.budget <= 1.0:
         exhaustive_single_module(ctx, reqs, todo)
+    yamltext_cases(ctx, reqs, todo)
+    generic_tree_cases(ctx, reqs, todo)
+    for t in TEXT_CORNERS:
+        text_case(ctx, t, reqs, todo)
     replies = ctx.model(reqs)
     if replies is None:
         ctx.notes.append("model driver unavailable: correspondence not run")
@@ -272,8 +487,37 @@ def run(ctx: Ctx) -> None:
 
 
 def replay(ctx: Ctx, body: dict) -> None:
-    doc, eps, mode = nc.read_input(body["input"])
     reqs, todo = [], []
+    if body["input"].get("mode") == "T":
+        if body["input"].get("kind") == "tree":
+            tree = nc.text_tree_to_python(nc.dec_text_tree(body["input"]["tree"].split(), 0)[0])
+            text = write_yaml(tree)
+            reqs.append("T emit " + body["input"]["tree"])
+            todo.append(("text-emit", body["input"], text, None, len(text)))
+            reqs.append("T parse " + nc.enc_str(text))
+            todo.append(("text-parse", body["input"], load_text(text), text, len(text)))
+            replies = ctx.model(reqs)
+            if replies:
+                compare(ctx, todo, replies, None)
+            return
+        text = body["input"]["text"]
+        if body["input"].get("kind") == "yamltext":
+            try:
+                read_yaml(text)
+                seen = "1"
+            except (FileNotFoundError, NotADirectoryError):
+                seen = "0"
+            except Exception:
+                seen = "1"
+            reqs.append("T yamltext " + nc.enc_str(text))
+            todo.append(("yamltext", body["input"], seen, text, len(text)))
+        else:
+            text_case(ctx, text, reqs, todo)
+        replies = ctx.model(reqs)
+        if replies:
+            compare(ctx, todo, replies, None)
+        return
+    doc, eps, mode = nc.read_input(body["input"])
     one_case(ctx, doc, eps, mode, reqs, todo, "replay")
     replies = ctx.model(reqs)
     if replies:
